@@ -1144,7 +1144,7 @@ func execRecycle(cfg *Cfg, o *harness.Outcome, env *harness.Env) {
 			o.Nontrivial = true
 			o.Probe("outlier_retry_task_of_a_replaced_rule_consumed_under_a_passive_rule")
 			if calls+passiveCalls != 0 {
-				o.KnownHit("C13.retry-task-of-a-replaced-rule-starts-active-recovery-under-a-passive-rule", "C13.replaced-rule-still-decides", 0, "outlier rule with active recovery: a request found a node ejected and queued it for the retryer; before the retryer took it from its queue the rule was replaced by one with PASSIVE recovery (EnableActiveRecovery false). In the 10 s after that load had returned a recovery check function was called %d times (the replaced rule's %d, the one the passive rule carries %d): the loop of active recovery runs under a rule that has none",
+				o.Fail("C13.replaced-rule-still-decides", 0, "outlier rule with active recovery: a request found a node ejected and queued it for the retryer; before the retryer took it from its queue the rule was replaced by one with PASSIVE recovery (EnableActiveRecovery false). In the 10 s after that load had returned a recovery check function was called %d times (the replaced rule's %d, the one the passive rule carries %d): the loop of active recovery runs under a rule that has none",
 					calls+passiveCalls, calls, passiveCalls)
 			}
 			return
